@@ -18,8 +18,7 @@ RULE = ('container configs: capacity{None,0,1,2} x value limit{None,2} x immutab
         'create x env table; Deep.start x 0-2 resource plugins x both orders; non-trivial = an eviction, a rejection or an override happened'
         ' ; Resource.create with process.executable.name of every valid attribute value type')
 ASSUMPTIONS = ['dropped at capacity 0 is bounded below by the valid sets and above by all sets',
-               'canonical state omits `dropped` because nothing reads it (checked per transition instead): bisimulation for bounded capacity',
-               'a sequence element that is undecodable bytes is outside the alphabet']
+               'canonical state omits `dropped` because nothing reads it (checked per transition instead): bisimulation for bounded capacity']
 
 KEYS = ['a', 'b', 'c', '', 1]
 
@@ -29,7 +28,7 @@ class Opaque:
 
 
 VALUES = [1, 1.5, True, 's', 'long-string', b'b', b'\xff', None, [1, 2], [1, 'a'], ['a', None], (b'x',), {}, Opaque(),
-          b'long-bytes', [b'long-bytes', 'long-string'], ('', 'xyz')]
+          b'long-bytes', [b'long-bytes', 'long-string'], ('', 'xyz'), ['ok', b'\xff'], (b'\xff',)]
 MERGES = [{'a': 9}, {'b': 'x', 'c': 'y'}, {}]
 INVALID = object()
 
@@ -58,7 +57,7 @@ def clean(k, v, limit):
         for e in v:
             e = clean_val(e, limit)
             if e is None:
-                out.append(None)
+                out.append(None)        # (also bytes that cannot be decoded: pinned by the suite's test_sequence_attr_decode)
                 continue
             if type(e) not in (bool, str, bytes, int, float):
                 return INVALID
@@ -136,6 +135,11 @@ def cases(tier, seed):
         for plist in ([], ['ResA'], ['ResA', 'ResB'], ['ResB', 'ResA']):
             for orders in ((0, 0), (0, 1), (1, 0)):
                 out.append({'k': 'start', 'env': e, 'plugins': plist, 'orders': list(orders)})
+    # a plugin whose resource carries a service name - a real one, or an empty one (the variable it is read from is not set)
+    for e in (None, 'k=v,service.name=x'):
+        for psn in ('from-plugin', ''):
+            for plist in (['ResA'], ['ResA', 'ResB'], ['ResB', 'ResA']):
+                out.append({'k': 'start', 'env': e, 'plugins': plist, 'orders': [0, 1], 'psn': psn})
     return out
 
 
@@ -400,6 +404,8 @@ def case_start(ctx, desc):
     j = plugs.reset()
     for name, order in zip(desc['plugins'], desc['orders']):
         plugs.SCRIPT[name] = {'order': order, 'attrs': {'shared': name, 'only_' + name: 1}}
+        if name == 'ResA' and desc.get('psn') is not None:
+            plugs.SCRIPT[name]['attrs']['service.name'] = desc['psn']
     ns, path = rig.load_program('c18prog', 'def f():\n    x = 1\n    return x\n')
 
     def poll(req, md):
@@ -430,6 +436,8 @@ def case_start(ctx, desc):
     for i in order:
         n = desc['plugins'][i]
         exp.update({'shared': n, 'only_' + n: 1})
+        if n == 'ResA' and desc.get('psn'):
+            exp['service.name'] = desc['psn']       # (an empty name is no name: what was there stays)
     polls, sends = chan.polls(), chan.sent()
     if not polls or not sends:
         ctx.violation('C18/start/no-traffic', f'{desc}: polls={len(polls)} sends={len(sends)}', desc)
